@@ -344,7 +344,7 @@ impl Prop for Store {
             .boxed()
     }
     fn n_cases(&self, tier: Tier) -> u32 {
-        tier.pick(200_000, 4_000_000)
+        tier.pick(200_000, 1_500_000)
     }
     fn enumerated(&self, tier: Tier) -> (Vec<StoreCase>, String) {
         // every history of bounded length over two labels
